@@ -8,6 +8,7 @@ import (
 	"io"
 	"math/rand"
 	"os"
+	"path/filepath"
 	"strings"
 
 	"github.com/protobom/protobom/pkg/formats"
@@ -132,6 +133,7 @@ func sniffOutput(b []byte) (string, string) {
 }
 
 var sharedCallOpts *writer.Options
+var nshared int
 
 func configRun(args []string) error {
 	fs := flag.NewFlagSet("config-run", flag.ExitOnError)
@@ -244,7 +246,19 @@ func configRun(args []string) error {
 				sharedCallOpts = &writer.Options{}
 			}
 			var buf bytes.Buffer
-			if err := ws[i].WriteStreamWithOptions(tinyDoc(), nopCloser{&buf}, sharedCallOpts); err != nil {
+			var err error
+			if nshared++; nshared%2 == 0 {
+				// the file-writing entry point takes the same per-call options value
+				path := filepath.Join(tmp, fmt.Sprintf("shared-%d.json", nshared))
+				if err = ws[i].WriteFileWithOptions(tinyDoc(), path, sharedCallOpts); err == nil {
+					data, _ := os.ReadFile(path)
+					buf.Write(data)
+				}
+				ev["via"] = "file"
+			} else {
+				err = ws[i].WriteStreamWithOptions(tinyDoc(), nopCloser{&buf}, sharedCallOpts)
+			}
+			if err != nil {
 				ev["used"], ev["usedindent"] = "error", ""
 			} else {
 				ev["used"], ev["usedindent"] = sniffOutput(buf.Bytes())
